@@ -49,6 +49,7 @@ type c06Handler struct {
 	Outcome     []string `json:"outcome,omitempty"`
 	SubCloseErr bool     `json:"sub_close_err,omitempty"`
 	PubCloseErr bool     `json:"pub_close_err,omitempty"`
+	PubCloseMs  int      `json:"pub_close_ms,omitempty"` // the publisher's Close() takes this long (flush); it can also be parked at api.pub.close
 	SubClose   string `json:"sub_close,omitempty"`
 	SubCloseMs int    `json:"sub_close_ms,omitempty"`
 }
@@ -68,6 +69,7 @@ type c06Scenario struct {
 	CloseTimeoutMs int          `json:"close_timeout_ms"`
 	Closers        int          `json:"closers"`      // concurrent Close callers of the first wave
 	SecondClose    bool         `json:"second_close"` // one more Close after the first wave returned, before the release
+	SubsEnd        bool         `json:"subs_end"`     // every subscription ends by itself (the broker closes it; gated by a rule on api.subend.gate)
 	Cancel         bool         `json:"cancel"`       // the user cancels Run's context (gated by a rule on api.cancel.gate)
 	D6Helper       bool         `json:"d6_helper"`
 	Unstarted      int          `json:"unstarted"` // handlers added after Run and never started with RunHandlers
@@ -227,6 +229,7 @@ type c06Pub struct {
 	closes   int
 	fail     map[string]bool // source message uuids whose Publish fails
 	closeErr bool
+	closeMs  int
 }
 
 func (p *c06Pub) Publish(topic string, msgs ...*message.Message) error {
@@ -248,8 +251,12 @@ func (p *c06Pub) Publish(topic string, msgs ...*message.Message) error {
 func (p *c06Pub) Close() error {
 	p.mu.Lock()
 	p.closes++
-	verifhook.At("api.pub.close", p.h)
 	p.mu.Unlock()
+	verifhook.At("api.pub.close", p.h) // Close() called; a scenario may park it here
+	if p.closeMs > 0 {
+		time.Sleep(time.Duration(p.closeMs) * time.Millisecond)
+	}
+	verifhook.At("api.pub.close_done", p.h) // Close() is about to return: the publisher is closed
 	if p.closeErr {
 		return fmt.Errorf("scripted publisher close error")
 	}
@@ -313,7 +320,7 @@ func c06Run(rt *hookrt.Runtime, sc *c06Scenario) {
 		subs[h] = newC06Sub(hname, spec.Honour)
 		subs[h].closeMode, subs[h].closeMs = spec.SubClose, spec.SubCloseMs
 		subs[h].closeErr = spec.SubCloseErr
-		pubs[h] = &c06Pub{h: hname, closeErr: spec.PubCloseErr}
+		pubs[h] = &c06Pub{h: hname, closeErr: spec.PubCloseErr, closeMs: spec.PubCloseMs}
 		fn := func(msg *message.Message) ([]*message.Message, error) {
 			verifhook.At("api.handler.start", hname, msg.UUID)
 			var k int
@@ -435,6 +442,15 @@ func c06Run(rt *hookrt.Runtime, sc *c06Scenario) {
 			verifhook.At("api.d6.gate") // parked by a rule until Run is about to cancel
 			time.Sleep(4 * time.Millisecond)
 			verifhook.At("api.d6.ready")
+		}()
+	}
+	if sc.SubsEnd {
+		go func() {
+			verifhook.At("api.subend.gate")
+			for h := range subs {
+				verifhook.At("api.sub.self_end", fmt.Sprintf("h%d", h))
+				subs[h].requestClose()
+			}
 		}()
 	}
 	if sc.Cancel {
@@ -763,6 +779,32 @@ func c06Forced(honour bool) []*c06Scenario {
 				sc.Rules = []c06Rule{
 					{Point: "api.close.gate", Until: "api.handler.end", UntilKeys: []string{c06UUID(0, 0)}, TimeoutMs: 300},
 					{Point: "api.rh.gate", Until: "api.handler.end", UntilKeys: []string{c06UUID(0, 0)}, TimeoutMs: 300}}
+			}
+			out = append(out, sc)
+		}
+	}
+	// shutdown orders in which the handler loops end BEFORE the router starts closing (the user cancels Run's context; every
+	// subscription ends by itself), with a publisher whose Close() takes time or is parked: whoever returns nil - the
+	// router's own Close, Run, a later Close call - may do so only when every publisher's Close() has completed
+	for _, how := range []string{"ctx-cancel", "subscriptions-end"} {
+		if how == "ctx-cancel" && !honour {
+			continue // a subscriber that ignores its context does not end on a cancel
+		}
+		for _, pub := range []string{"slow-publisher-close", "parked-publisher-close"} {
+			hsl := hs(true)
+			sc := &c06Scenario{Name: fmt.Sprintf("loops-end-first/%s/%s/%s", how, pub, hn), Kind: "forced", Handlers: hsl, CloseTimeoutMs: 2500,
+				Closers: 1, SecondClose: true, Cancel: how == "ctx-cancel", SubsEnd: how == "subscriptions-end"}
+			gate := "api.cancel.gate"
+			if sc.SubsEnd {
+				gate = "api.subend.gate"
+			}
+			sc.Rules = []c06Rule{
+				{Point: gate, Until: "api.handler.start", UntilKeys: []string{c06UUID(0, 0)}, TimeoutMs: 300},
+				{Point: "api.close.gate", Until: "api.run.ret", TimeoutMs: 1200}}
+			if pub == "slow-publisher-close" {
+				hsl[0].PubCloseMs = 150
+			} else {
+				sc.Rules = append(sc.Rules, c06Rule{Point: "api.pub.close", Keys: []string{"h0"}, Until: "api.close.ret", TimeoutMs: 300})
 			}
 			out = append(out, sc)
 		}
